@@ -19,6 +19,7 @@ class MontModels(Models):
         self.limb_bits, self.nlimbs = limb_bits, nlimbs
         self.Rv = pow(2, limb_bits * nlimbs, L)
         self.ops = 0
+        self.fresh = []             # names for operands that are raw limb vectors (see val)
 
     def const(self, v):
         """a concrete Scalar52 / Scalar29 / Scalar constant -> fraction"""
@@ -50,7 +51,13 @@ class MontModels(Models):
         v = ip.deconst(ip.deref_val(st, a))
         if v[0] == "fe":
             return v
-        return self.const(v)
+        c = self.const(v)
+        if c is None and self.fresh and a[0] == "ref":
+            # a value assembled from raw limbs (from_bytes_wide's lo / hi halves): name it, in order of first use, and remember it in place
+            c = fvar(self.fresh.pop(0))
+            cur = st.frames[a[1]].get(a[2], TOP)
+            st.frames[a[1]][a[2]] = ip.write_path(cur, a[3], c)
+        return c
 
     def call(self, ip, fv, st, depth, t, n, args, dty):
         names = [x for x in (n, t.get("callee_full") or "", (t.get("resolved") or {}).get("path") or "") if x]
@@ -93,9 +100,10 @@ def backend(F):
     return None
 
 
-def run(F, f, values):
+def run(F, f, values, fresh=None):
     lb, nl = backend(F)
     ip = Interp(F, MontModels(lb, nl), step_budget=4_000_000)
+    ip.models.fresh = list(fresh or [])
     ip.exact_small_vecs = True
     ret, root = ip.run_root(f, values)
     return ret, ip, root
